@@ -99,6 +99,27 @@ def run(ctx: Any, prog: Program) -> None:
                     key_form = FormEnv(init, call_forms=call_forms, attr_forms=attr_forms).form(n.value.key)
                     key_expr = n.value.key
         if key_form is None:
+            # the loop form: `tbl = {}` / `for info in ...: if <dir entry>: continue; tbl[<key>] = info` / `self.<index> = tbl`
+            locs_ = [dotted(a.value) for a in ast.walk(init) if isinstance(a, (ast.Assign, ast.AnnAssign)) and a.value is not None and isinstance(a.value, ast.Name)
+                     and any(dotted(t) == f'self.{index}' for t in (a.targets if isinstance(a, ast.Assign) else [a.target]))]
+            for lp_ in [l for l in ast.walk(init) if isinstance(l, ast.For)]:
+                st_ = [a for a in ast.walk(lp_) if isinstance(a, ast.Assign) and len(a.targets) == 1 and isinstance(a.targets[0], ast.Subscript) and (dotted(a.targets[0].value) in locs_ or dotted(a.targets[0].value) == f'self.{index}')]
+                if len(st_) == 1 and isinstance(lp_.target, ast.Name):
+                    attr_forms = {f'{lp_.target.id}.filename': frozenset({SLASHED})} if isinstance(lp_.iter, ast.Call) and isinstance(lp_.iter.func, ast.Attribute) and lp_.iter.func.attr == 'infolist' else {}
+                    key_expr = st_[0].targets[0].slice
+                    key_form = FormEnv(init, call_forms=call_forms, attr_forms=attr_forms).form(key_expr)
+                    # what the loop leaves out: `if c: continue` in front of the store, and `if c:` around it
+                    top_ = next(b for b in lp_.body if st_[0] is b or any(st_[0] is x for x in ast.walk(b)))
+                    skips_ = [(b.test, True) for b in lp_.body[:lp_.body.index(top_)] if isinstance(b, ast.If) and b.body and isinstance(b.body[-1], ast.Continue) and not b.orelse]
+                    skips_ += [(a_.test, False) for a_ in _anc19(fs, st_[0], lp_) if isinstance(a_, ast.If)]
+                    for t_, skip_when_true in skips_:
+                        core_ = t_.operand if (not skip_when_true and isinstance(t_, ast.UnaryOp) and isinstance(t_.op, ast.Not)) else t_
+                        polarity_ok = skip_when_true or (isinstance(t_, ast.UnaryOp) and isinstance(t_.op, ast.Not))
+                        is_dir_test = polarity_ok and isinstance(core_, ast.Call) and isinstance(core_.func, ast.Attribute) and (core_.func.attr == 'is_dir' or (core_.func.attr == 'endswith' and core_.args and isinstance(core_.args[0], ast.Constant)
+                                                                                                                                                        and core_.args[0].value in ('/', ('/', '\\'))))
+                        ctx.check('C19.H1', is_dir_test, fs, t_, f'{cls}: the index loop leaves members out depending on `{U(t_)[:60]}` - that is not a test for a directory entry, so real files are missing from this backend '
+                                  'while the other backends have them', func=f'{cls}.__init__', text=f'{cls} index filter `{U(t_)[:40]}`')
+        if key_form is None:
             raise AnalysisError(f'{cls}.__init__: index {index} is not built by a dict comprehension')
         # every *file* of the container is indexed: the only members the comprehension may leave out are directory entries
         for n in ast.walk(init):
